@@ -53,6 +53,7 @@ type Obligation struct {
 	Vacuity bool // a probe that must be SAT (goal is the formula that must be satisfiable)
 	Using  []string
 	Extra  []string // extra assert commands (instantiated lemmas)
+	Unsupported string
 	Expr   Expr // the clause (for replay compilation)
 }
 
@@ -64,6 +65,8 @@ type Ctx struct {
 	decls    []string
 	sortDecls []string
 	recForms [][2]string
+	lateAxioms []string
+	lateBox  []string
 	preludeLen int
 	declared map[string]bool
 	cmds     []string
@@ -118,6 +121,12 @@ func (c *Ctx) define(prefix, sortS, term string) string {
 		return term
 	}
 	n := c.fresh(prefix)
+	if strings.HasPrefix(sortS, "(Array Int (Array") {
+		// heaps are named by constants (not macros) so that quantifier patterns can mention them
+		c.cmds = append(c.cmds, fmt.Sprintf("(declare-fun %s () %s)", n, sortS), fmt.Sprintf("(assert (= %s %s))", n, term))
+		c.defs[n] = term
+		return n
+	}
 	c.cmds = append(c.cmds, fmt.Sprintf("(define-fun %s () %s %s)", n, sortS, term))
 	c.defs[n] = term
 	return n
@@ -156,6 +165,7 @@ func (c *Ctx) prelude() {
 	c.decl("(define-fun imin ((a Int) (b Int)) Int (ite (<= a b) a b))")
 	c.decl("(define-fun imax ((a Int) (b Int)) Int (ite (>= a b) a b))")
 	c.decl("(declare-fun closfn (Int) Int)")
+	c.decl("@@IX@@")
 	c.preludeLen = len(c.decls)
 }
 
@@ -333,7 +343,7 @@ func (c *Ctx) zero(t types.Type) string {
 		case tt.Info()&types.IsString != 0:
 			return c.strLit("")
 		}
-		return "nilptr"
+		return "(mkptr 0 0)"
 	case *types.Struct:
 		name := c.sortOf(t)
 		if tt.NumFields() == 0 {
@@ -345,11 +355,11 @@ func (c *Ctx) zero(t types.Type) string {
 		}
 		return fmt.Sprintf("(mk_%s %s)", name, strings.Join(args, " "))
 	case *types.Pointer:
-		return "nilptr"
+		return "(mkptr 0 0)"
 	case *types.Slice:
-		return "nilslice"
+		return "(mkslice 0 0 0 0)"
 	case *types.Interface:
-		return "niliface"
+		return "(mkiface 0 0)"
 	case *types.Array:
 		return fmt.Sprintf("((as const %s) %s)", c.sortOf(t), c.zero(tt.Elem()))
 	case *types.Signature, *types.Map, *types.Chan:
@@ -405,8 +415,14 @@ func (c *Ctx) floatLit(v float64) string {
 		if math.IsNaN(v) {
 			return "(_ NaN 11 53)"
 		}
+		if v == 0 {
+			if math.Signbit(v) {
+				return "(_ -zero 11 53)"
+			}
+			return "(_ +zero 11 53)"
+		}
 		bits := math.Float64bits(v)
-		return fmt.Sprintf("((_ to_fp 11 53) #x%016x)", bits)
+		return fmt.Sprintf("(fp #b%01b #b%011b #b%052b)", bits>>63, (bits>>52)&0x7ff, bits&((1<<52)-1))
 	case ModeUFloat:
 		bits := math.Float64bits(v)
 		return fmt.Sprintf("(fofbits #x%016x)", bits)
@@ -602,7 +618,18 @@ func (c *Ctx) typeTag(t types.Type) string {
 func (c *Ctx) box(t types.Type, x string) string {
 	s := c.sortOf(t)
 	k := sanitize(s)
-	c.declOnce("box:"+k, fmt.Sprintf("(declare-fun box_%s (%s) Int)\n(declare-fun unbox_%s (Int) %s)\n(assert (forall ((x %s)) (! (= (unbox_%s (box_%s x)) x) :pattern ((box_%s x)))))", k, s, k, s, s, k, k, k))
+	c.declOnce("box:"+k, fmt.Sprintf("(declare-fun box_%s (%s) Int)\n(declare-fun unbox_%s (Int) %s)", k, s, k, s))
+	if x != "" {
+		// ground instance of unbox(box(x)) = x
+		inst := fmt.Sprintf("(= (unbox_%s (box_%s %s)) %s)", k, k, x, x)
+		if !c.declared["boxinst:"+inst] && !strings.Contains(x, "q_") && !strings.Contains(x, "a_") {
+			c.declared["boxinst:"+inst] = true
+			c.lateBox = append(c.lateBox, inst)
+			c.cmds = append(c.cmds, "(assert "+inst+")")
+		} else if strings.Contains(x, "q_") || strings.Contains(x, "a_") {
+			c.declOnce("boxax:"+k, fmt.Sprintf("(assert (forall ((x %s)) (! (= (unbox_%s (box_%s x)) x) :pattern ((box_%s x)))))", s, k, k, k))
+		}
+	}
 	return fmt.Sprintf("(box_%s %s)", k, x)
 }
 
@@ -713,6 +740,15 @@ func (o *Obligation) queryVariant(extra []string, variant int) string {
 			fmt.Sscanf(d, "@@REC:%d@@", &k)
 			d = c.recForms[k][variant]
 		}
+		if d == "@@IX@@" {
+			// slice element addressing off+i: an uninterpreted symbol (robust quantifier
+			// patterns) in the proof-oriented variant, a macro in the model-oriented one
+			if variant == 0 {
+				d = "(declare-fun ix (Int Int) Int)\n(assert (forall ((a Int) (b Int)) (! (= (ix a b) (+ a b)) :pattern ((ix a b)))))"
+			} else {
+				d = "(define-fun ix ((a Int) (b Int)) Int (+ a b))"
+			}
+		}
 		b.WriteString(d)
 		b.WriteString("\n")
 		if i == c.preludeLen-1 {
@@ -729,6 +765,13 @@ func (o *Obligation) queryVariant(extra []string, variant int) string {
 		b.WriteString(cmd)
 		b.WriteString("\n")
 	}
+	for _, ax := range c.lateAxioms {
+		// facts about heap constants (valid Go invariants); placed after the declarations
+		if heapDeclaredBefore(ax, c.cmds[:o.prefix], c.decls) {
+			b.WriteString(ax)
+			b.WriteString("\n")
+		}
+	}
 	for _, e := range o.Extra {
 		b.WriteString(e)
 		b.WriteString("\n")
@@ -744,4 +787,28 @@ func (o *Obligation) queryVariant(extra []string, variant int) string {
 	}
 	b.WriteString("(check-sat)\n(get-model)\n")
 	return b.String()
+}
+
+// heapDeclaredBefore: the heap constant an axiom talks about is declared in
+// the visible prefix.
+func heapDeclaredBefore(ax string, cmds, decls []string) bool {
+	i := strings.Index(ax, "(select (select ")
+	if i < 0 {
+		return true
+	}
+	rest := ax[i+len("(select (select "):]
+	j := strings.IndexAny(rest, " )")
+	name := rest[:j]
+	needle := "(declare-fun " + name + " "
+	for _, d := range decls {
+		if strings.HasPrefix(d, needle) {
+			return true
+		}
+	}
+	for _, d := range cmds {
+		if strings.HasPrefix(d, needle) {
+			return true
+		}
+	}
+	return false
 }
